@@ -137,6 +137,8 @@ def judge_dispatch(bank_code: str, account: str, implemented: set):
         return True, None, None, None
     if isinstance(got, str):
         return False, f"dispatch: {got} escapes", None, (text, got)
+    if m == lookup.AMBIGUOUS:
+        return True, None, None, None  # registry entries of the key disagree: not judged here
     if m is None or m not in implemented:
         exp = True  # unlisted bank or method the library does not implement: accepted
         why = "unlisted bank" if m is None else f"method {m} not implemented by the library"
